@@ -65,15 +65,37 @@ class ModCtx:
         self.nbun = 0
         self.ninst = 0
         self.nmemo = 0
-        self.noconned = set()  # (iname, port) with a no-connect
-        self.referenced = set()  # (iname, port) referenced by a live port reference
         self.implicit = set()  # ports left unconnected on purpose
-        self.assigned = {}  # (iname, port) -> X
+        self.assigned = {}  # (iname, port) -> X   the *live* connections
         self.last_bundle = {}  # iname -> bundle instance most recently connected to it
 
     @property
     def m(self):
         return self.g.d.mods[self.mid]
+
+    @property
+    def noconned(self):
+        """Ports whose live connection is a no-connect."""
+        return {k for k, x in self.assigned.items() if x[0] == "nc"}
+
+    @property
+    def referenced(self):
+        """Ports referenced by a live port reference (anywhere inside a live connection)."""
+        out = set()
+
+        def walk(x):
+            if isinstance(x, list):
+                if x and x[0] == "pr":
+                    out.add((x[1], x[2]))
+                for v in x:
+                    walk(v)
+            elif isinstance(x, dict):
+                for v in x.values():
+                    walk(v)
+
+        for x in self.assigned.values():
+            walk(x)
+        return out
 
 
 class Gen:
@@ -160,10 +182,13 @@ class Gen:
             for port, shape in self.d.target_ports(info["target"]).items():
                 todo.append((iname, port, shape))
         todo = ch.shuffle(todo, "connorder")
-        for iname, port, shape in todo:
-            if (iname, port) in mc.implicit:
-                continue
-            self.connect_port(mc, iname, port, shape, todo)
+        if cfg.get("history"):
+            self.connect_with_history(mc, todo)
+        else:
+            for iname, port, shape in todo:
+                if (iname, port) in mc.implicit:
+                    continue
+                self.connect_port(mc, iname, port, shape, todo)
         # implicit ports must have ended up referenced
         for key in sorted(mc.implicit):
             if key not in mc.referenced:
@@ -255,8 +280,43 @@ class Gen:
             x = self.gen_bundle_val(mc, shape, 0, (iname, port), allow_pr=allow_pr, for_array=(kind != "inst"), todo=todo)
         how = how or ch.pick(["call", "setattr", "connect"], "connhow")
         mc.assigned[(iname, port)] = x
-        self.emit(["conn", mc.mid, iname, port, x, how])
+        if how == "repl":
+            self.emit(["repl", mc.mid, iname, port, x])
+        else:
+            self.emit(["conn", mc.mid, iname, port, x, how])
         return x
+
+    def connect_with_history(self, mc, todo):
+        """C04: per port 0-3 temporary connections of any kind, then the final one; the
+        per-port sequences are interleaved at random.  Later connections go through
+        connect (which replaces), replace(), or disconnect() + connect."""
+        ch = self.ch
+        seqs = []
+        for iname, port, shape in todo:
+            k = ch.weighted([(3, 0), (3, 1), (2, 2), (1, 3)], "ntmp")
+            seqs.append([(iname, port, shape, False)] * k + [(iname, port, shape, True)])
+        events = []
+        live = [s for s in seqs if s]
+        while live:
+            s_ = ch.pick(live, "interleave")
+            events.append(s_.pop(0))
+            live = [s for s in live if s]
+        for iname, port, shape, final in events:
+            key = (iname, port)
+            if key in mc.implicit:
+                continue
+            if key in mc.assigned:
+                way = ch.weighted([(3, "conn"), (3, "repl"), (2, "disc")], "rehow")
+                if way == "disc":
+                    self.emit(["disc", mc.mid, iname, port])
+                    del mc.assigned[key]
+                    self.connect_port(mc, iname, port, shape, todo if final else [])
+                elif way == "repl":
+                    self.connect_port(mc, iname, port, shape, todo if final else [], how="repl")
+                else:
+                    self.connect_port(mc, iname, port, shape, todo if final else [])
+            else:
+                self.connect_port(mc, iname, port, shape, todo if final else [])
 
     def gen_diff(self, mc):
         """A Diff bundle instance (for pairs)."""
@@ -310,7 +370,6 @@ class Gen:
             return ["s", self.new_sig(mc, w)]
         if k == "nc":
             mc.nmemo += 1
-            mc.noconned.add(me)
             return ["nc", mc.nmemo, (f"nc{mc.nmemo}" if ch.chance(1, 3) else None)]
         if k == "bref":
             cands = []
@@ -389,7 +448,6 @@ class Gen:
         # would referencing q close a reference loop back to `me`?  Loops are legal; keep rare.
         if self._reaches(mc, q, me) and not ch.chance(1, 4):
             return None
-        mc.referenced.add(q)
         if q not in mc.assigned and q in {(i, p) for i, p, _s in todo} and ch.chance(1, 2):
             mc.implicit.add(q)
         return ["pr", q[0], q[1]]
